@@ -810,7 +810,15 @@ class Interp:
         if value is None:
             st.kill_root(name)
             return
-        if isinstance(value, (ast.List, ast.Dict, ast.Set, ast.ListComp, ast.SetComp, ast.DictComp, ast.GeneratorExp)):
+        fresh_container = (
+            isinstance(value, ast.Call)
+            and isinstance(value.func, ast.Name)
+            and (
+                (value.func.id in ("set", "list", "dict", "tuple", "frozenset", "OrderedDict", "Counter") and not value.args and not value.keywords)
+                or value.func.id == "defaultdict"
+            )
+        )
+        if fresh_container or isinstance(value, (ast.List, ast.Dict, ast.Set, ast.ListComp, ast.SetComp, ast.DictComp, ast.GeneratorExp)):
             # a fresh mutable object: its text does not identify it (two `[]` are different lists)
             st.kill_root(name)
             return
